@@ -249,6 +249,7 @@ def run(P, R):
             'distribution|on_command_added', oc.loc(), 'on_command_added does not place under `distribution != '
             'ALL_INSTANCES`')
     shared.distribution_candidates(P, R, r4)
+    shared.command_added_hook(P, R, r4)
     shared.application_candidates(P, R, r4)
     shared.enum_classes(P, R, r4, only=('starting_strategy', 'distribution'))
     R.assume('Optimality over numeric load tables is NOT decided; only the ordering structure of each strategy.')
